@@ -47,7 +47,7 @@ def str_scripts(ctx, g, twin):
 def str_random(rng, twin, n):
     out = []
     for _ in range(n):
-        cap = rng.choice([1, 2, 3, 4, 7, 8, 16])
+        cap = rng.choice([1, 2, 3, 4, 7, 8, 16, 16, 255, 256, 300])
         out.append("R %d" % cap)
         for _ in range(rng.randrange(1, 4)):
             r = rng.random()
@@ -82,6 +82,9 @@ def check(ctx):
         cap = ctx.rng.choice([1, 2, 3, 5])
         rnd_main += vc.random_script(ctx.rng, "svec", "tracked" if i % 3 else "int", cap, 60)
         rnd_sp += vc.random_script(ctx.rng, "svec", "tracked" if i % 3 else "int", cap, 60, old_iface=True)
+    for el in ("tracked", "int"):
+        rnd_main += vc.big_static_script(ctx.rng, el)
+        rnd_sp += vc.big_static_script(ctx.rng, el, old_iface=True)
     traces = [(drv, s_main, "svec_cover"), (drv, rnd_main, "svec_random"), (drv_sp, s_sp, "svec_sp_cover"), (drv_sp, rnd_sp, "svec_sp_random")]
     for (d, sc, name) in traces:
         t = ctx.drive(d, sc, name)
@@ -99,7 +102,7 @@ def check(ctx):
         for b in bad: b["driver"] = "drv_sstring_sp" if twin else "drv_sstring"
         ctx.report(bad)
     ctx.assumptions += [
-        "capacities N in {1,2,3,5} (static_vector) and {1,2,3,4,7,8,16} (static_string); constructor sources of length 0..2N(+2)",
+        "capacities N in {1,2,3,5,300} (static_vector) and {1,2,3,4,7,8,16,255,256,300} (static_string); constructor sources of length 0..2N(+2)",
         "the inline storage of a static_vector is registered as one block of N slots; the lifetime ledger of VecLife.tla judges every element event in it; the bytes around each object are guard bytes that every event reports",
         "std_portable.h static_vector is the older interface (no range/list constructor, no erase); its move constructor leaves the moved-from elements in the source, which the model allows (their values are adopted from the observation, their number and lifetime are checked)",
         "igris/container/static_string.h operator[] does not instantiate (returns the address of a char as a char reference) and is not part of the check; unbounded_array.h is not part of the property statement and is not judged",
